@@ -239,6 +239,11 @@ class Run(RunBase):
         if k == "add_lanelet":
             return op["key"] in self.pool and self.pool[op["key"]]["id"] not in self._net_ids() and \
                 not any(o.obstacle_id == self.pool[op["key"]]["id"] for o in sc.obstacles)
+        if k == "add_batch":
+            ids = [self.pool[x]["id"] for x in op["keys"] if x in self.pool]
+            return len(ids) == len(op["keys"]) >= 2 and len(set(ids)) == len(ids) and \
+                not (set(ids) & set(self._net_ids())) and \
+                not any(o.obstacle_id in ids for o in sc.obstacles)
         if k == "remove_lanelet":
             # scenario-level removal only for lanelets the scenario knows about (added through it); network-level
             # removal only for lanelets added at network level (the id pool is C09's business, not ours)
@@ -652,6 +657,20 @@ class Run(RunBase):
         self._after([("network", None)])
         return r
 
+    def _op_add_batch(self, op):
+        """The documented bulk pattern: add several lanelets with rtree=False, the last one with rtree=True (which
+        has to index ALL of them)."""
+        lanelets = [build.build_lanelet(self.pool[k]) for k in op["keys"]]
+        net = self.sc.lanelet_network
+
+        def f():
+            for la in lanelets[:-1]:
+                net.add_lanelet(la, rtree=False)
+            net.add_lanelet(lanelets[-1], rtree=True)
+        r = self._try("add_lanelet[batch,rtree=False..True]", f)
+        self._after([("network", None)])
+        return r
+
     def _op_remove_lanelet(self, op):
         if op["level"] == "scenario":
             la = self.sc.lanelet_network.find_lanelet_by_id(op["id"])
@@ -874,6 +893,9 @@ def _mutator(rng, run, cfg):
         elif k == "add_lanelet":
             c = [key for key in sorted(run.pool) if run.enabled({"op": "add_lanelet", "key": key})]
             yield {"op": k, "key": rng.pick(c), "level": rng.pick(["scenario", "network"])} if c else None
+        elif k == "add_batch":
+            c = [key for key in sorted(run.pool) if run.enabled({"op": "add_lanelet", "key": key})]
+            yield {"op": k, "keys": rng.sample(c, rng.randint(2, len(c)))} if len(c) >= 2 else None
         elif k == "remove_lanelet" and net:
             i = rng.pick(net)
             yield {"op": k, "id": i, "level": "scenario" if i in run.via_scenario else "network"}
@@ -918,7 +940,7 @@ def _restarter(rng, run, cfg):
 
 QUERIES = ["q_occ", "q_state", "q_scn_occ", "q_scn_states", "q_poly", "q_dist", "q_pos", "q_shape", "q_light", "sweep"]
 MUTATORS = ["tr_scenario", "tr_network", "tr_obstacle", "tr_prediction", "tr_lanelet", "set_prediction",
-            "update_prediction", "set_trajectory", "set_shape", "update_initial", "set_initial", "add_lanelet",
+            "update_prediction", "set_trajectory", "set_shape", "update_initial", "set_initial", "add_lanelet", "add_batch",
             "remove_lanelet",
             "set_cycle", "set_offset", "replace_cycle"]
 
@@ -941,6 +963,7 @@ class C11(Property):
                        "cell:find_lanelet_by_shape<-translate_rotate[network]",
                        "cell:find_lanelet_by_position<-add_lanelet[network]",
                        "cell:find_lanelet_by_position<-add_lanelet[scenario]",
+                       "cell:find_lanelet_by_position<-add_lanelet[batch,rtree=False..True]",
                        "cell:find_lanelet_by_position<-remove_lanelet[network]",
                        "cell:find_lanelet_by_position<-remove_lanelet[scenario]",
                        "cell:lanelet.polygon<-translate_rotate[network]", "cell:lanelet.polygon<-translate_rotate[lanelet]",
